@@ -9,6 +9,7 @@
 //	                          SIGKILLed just before its <crash>-th filesystem operation ("-" = runs to completion,
 //	                          "0.k" = inside the initial removal of the old entry, after k unlink/rmdir steps)
 //	      R                   Retrieve in a fresh cache object into an emptied plz-out/gen/<pkg>
+//	      R/<tree>            the same, but plz-out/gen/<pkg> first holds <tree>: stale outputs of an earlier build
 //	      X/<crash>/<tree>   Retrieve that is suspended right after it found the entry while the store runs
 //	                          (up to <crash>), then resumes
 //	      D/<keep>            compressed caches only: the entry's .tar.gz loses its gzip trailer, one more byte, and
@@ -281,9 +282,8 @@ func init() {
 	}
 }
 
-func (s *scenario) retrieve(atFound func()) string {
-	os.RemoveAll(s.gen())
-	os.MkdirAll(s.gen(), 0o775)
+func (s *scenario) retrieve(atFound func(), stale []entry) string {
+	materialise(s.gen(), stale) // empties the directory first
 	c := cache.NewDirCacheForVerif(s.e.cacheDir, s.comp)
 	if atFound != nil {
 		hooks.Store(s.pkg, func(op, _ string) {
@@ -327,6 +327,8 @@ type caseResult struct {
 	results  []string  // results of R / X acts
 	resAfter []int     // number of stores started before that result
 	resX     []bool    // the result belongs to an interleaved (X) act
+	staleRetrieves int
+	resStale []bool // the retrieve ran over stale outputs
 	nontriv  bool
 	kinds    []string
 }
@@ -377,9 +379,19 @@ func runScenario(e *env, pkg, line string) (res caseResult) {
 			}
 			nDamage++
 			pieces = append(pieces, "damaged")
-		case a == "R":
-			r := s.retrieve(nil)
+		case a == "R" || (len(q) == 2 && q[0] == "R"):
+			var stale []entry
+			if a != "R" {
+				var err error
+				if stale, err = parseTree(q[1]); err != nil {
+					res.out = "bad-op"
+					return
+				}
+				res.staleRetrieves++
+			}
+			r := s.retrieve(nil, stale)
 			pieces = append(pieces, r)
+			res.resStale = append(res.resStale, a != "R")
 			res.results = append(res.results, r)
 			res.resAfter = append(res.resAfter, len(res.stores))
 			res.resX = append(res.resX, false)
@@ -413,7 +425,7 @@ func runScenario(e *env, pkg, line string) (res caseResult) {
 					os.RemoveAll(s.gen())
 					os.MkdirAll(s.gen(), 0o775)
 				}
-				r := s.retrieve(run)
+				r := s.retrieve(run, nil)
 				if !ran {
 					run()
 				}
@@ -427,6 +439,7 @@ func runScenario(e *env, pkg, line string) (res caseResult) {
 				res.results = append(res.results, r)
 				res.resAfter = append(res.resAfter, len(res.stores))
 				res.resX = append(res.resX, true) // for its own retrieve the old and the new tree are both acceptable
+				res.resStale = append(res.resStale, false)
 				res.damaged = append(res.damaged, nDamage)
 				nDamage = 0
 				pieces = append(pieces, tr+";"+r)
@@ -487,7 +500,9 @@ func checkOracle(r *lib.Run, line string, res caseResult, outs []string, comp bo
 					}
 					all = all && found
 				}
-				if all {
+				if all && res.resStale[i] {
+					r.OracleFail("miss-after-complete-store-over-stale-outputs", line, "retrieve "+strconv.Itoa(i)+" missed although the key had just been stored completely")
+				} else if all {
 					r.OracleFail("roundtrip-miss-after-complete-store", line, "retrieve "+strconv.Itoa(i)+" missed")
 				}
 			}
@@ -512,7 +527,9 @@ func checkOracle(r *lib.Run, line string, res caseResult, outs []string, comp bo
 				ok = true
 			}
 		}
-		if !ok && res.damaged[i] > 0 {
+		if !ok && res.resStale[i] {
+			r.OracleFail("stale-output-survives-retrieve", line, "retrieve "+strconv.Itoa(i)+" restored "+showTree(t)+" over stale outputs: not the stored tree")
+		} else if !ok && res.damaged[i] > 0 {
 			r.OracleFail("damaged-archive-reported-as-hit", line, "retrieve "+strconv.Itoa(i)+" restored "+showTree(t))
 		} else if !ok {
 			r.OracleFail(classify(res, i, t, outs, comp), line, "retrieve "+strconv.Itoa(i)+" restored "+showTree(t))
@@ -636,6 +653,9 @@ func main() {
 			if strings.Contains(line, " D/") {
 				r.Count("c:damaged-entry")
 			}
+			if res.staleRetrieves > 0 {
+				r.Count(f[0] + ":retrieve-over-stale-outputs")
+			}
 		}
 		nontriv := false
 		for j, k := range res.kinds {
@@ -643,6 +663,6 @@ func main() {
 				nontriv = true
 			}
 		}
-		r.Emit(line, res.out, nontriv)
+		r.Emit(line, res.out, nontriv || res.staleRetrieves > 0)
 	}
 }
